@@ -55,6 +55,15 @@ def check_line(case, ev):
     from netconan.sensitive_item_removal import AsNumberAnonymizer, anonymize_as_numbers
 
     nums, line, salt, via = case["nums"], case["line"], case["salt"], case.get("via", "direct")
+    before = None
+    if case.get("between"):
+        # earlier in the process: an anonymizer with the same salt answers, then a construction with another
+        # salt is refused half-way (an invalid entry behind valid ones); the answers must not change
+        an0, exc = guarded(AsNumberAnonymizer, list(nums), salt)
+        if exc is not None:
+            return core.exc_finding(exc, case, "ctor/")
+        before = {n: an0.anonymize(n) for n in nums}
+        guarded(AsNumberAnonymizer, list(nums) + [case["between"]], salt + "~other")
     an, exc = guarded(AsNumberAnonymizer, list(nums), salt)
     if exc is not None:
         return core.exc_finding(exc, case, "ctor/")
@@ -155,6 +164,10 @@ def check_line(case, ev):
         elif ti != to:
             kind = "listed-number-left-unchanged" if False else ("digits-of-longer-number-changed" if isnum else "other-text-changed")
             return Finding("as/" + kind, "nums=%r salt=%r line %r -> %r (%r became %r)" % (nums, salt, line, out, ti, to), case)
+    if before is not None and via == "direct":
+        for n, r in seen.items():
+            if before[n] != r:
+                return Finding("as/replacement-changes-after-a-refused-construction", "salt=%r: %s -> %s before, %s after AsNumberAnonymizer(%r, other salt) was refused" % (salt, n, before[n], r, list(nums) + [case["between"]]), case)
     # listed numbers must actually be replaced by the keyed value: compare with other instances
     for n, r in seen.items():
         solo, exc = guarded(lambda: AsNumberAnonymizer([n], salt).anonymize(n))
@@ -256,7 +269,7 @@ def _case(draw):
     reserved = []
     if via == "io" and line.split() and draw(st.booleans()):
         reserved = draw(st.lists(st.sampled_from(line.split()), min_size=1, max_size=2, unique=True))
-    return {"reserved": reserved, "nums": nums, "line": line, "salt": draw(st.one_of(st.text(max_size=6), st.sampled_from(["", "s", "TESTSALT"]))), "via": via, "nonl": draw(st.integers(0, 3)) == 0}
+    return {"between": draw(st.sampled_from(["4294967296", "x", "-1", "65001a", ""])) if via == "direct" and draw(st.integers(0, 3)) == 0 else None, "reserved": reserved, "nums": nums, "line": line, "salt": draw(st.one_of(st.text(max_size=6), st.sampled_from(["", "s", "TESTSALT"]))), "via": via, "nonl": draw(st.integers(0, 3)) == 0}
 
 
 def t_lines(shard, nshards, seed, ev, known, n=1000):
